@@ -85,6 +85,75 @@ def efun_inventory(repo):
     return out
 
 
+# ---------------------------------------------------------------------------
+# translator, part 2 (gen_extra): the guard lines of the C code that the model mirrors.  Each site is located in the
+# current source by a regular expression that fixes the operator, the operands and the order of the statements; the
+# number of matches must be the expected one, captured constants go to NV/Gen/C04.lean (the model uses them, the
+# bridging lemmas of NV/C04/Props.lean are obligations).  A site that no longer matches breaks the tie.
+W = r"\s*"
+SITES = [
+    # name, file, regex, expected matches, name of the captured constant (or None)
+    ("stackSlackSrc", "src/stack.c", r"end_of_stack = start_of_stack \+ size - (\d+);", 1, "stackSlackSrc"),
+    ("stackCheck", "src/interpret.h", r"if \(sp \+ n >= end_of_stack\)" + W + r"\\?" + W + r"\{ set_error_state\(ES_STACK_FULL\); error", 1, None),
+    ("checkAndPush", "src/stack.c", r"if \(\(sp \+= n\) >= end_of_stack\)" + W + r"\\?" + W + r"\{ sp -= n; set_error_state\(ES_STACK_FULL\); error", 1, None),
+    ("depthTestFrame", "src/frame.c", r"if \(csp == &control_stack\[CONFIG_INT \(__MAX_CALL_DEPTH__\) - (\d+)\]\)" + W + r"\{" + W + r"error_state \|= ES_STACK_FULL;" + W + r"error", 1, "depthTestOffset"),
+    ("depthTestFake", "lib/lpc/functional.c", r"if \(csp == &control_stack\[CONFIG_INT \(__MAX_CALL_DEPTH__\) - (\d+)\]\)" + W + r"\{" + W + r"set_error_state\(ES_STACK_FULL\);" + W + r"error", 1, "depthTestOffsetFake"),
+    ("depthTestContext", "src/error_context.c", r"if \(csp == &control_stack\[CONFIG_INT \(__MAX_CALL_DEPTH__\) - (\d+)\]\)" + W + r"\{[^}]*return 0;", 1, "depthTestOffsetContext"),
+    ("cspIncrements", "src/frame.c", r"csp\+\+;", 1, None),
+    ("evalTick", "src/interpret.c", r"if \(!--eval_cost\)" + W + r"\{.{0,400}?set_error_state \(ES_MAX_EVAL_COST\);" + W + r"eval_cost = CONFIG_INT \(__MAX_EVAL_COST__\);" + W + r"error \(\"\*Too long evaluation", 2, None),
+    ("popContextClears", "src/error_context.c", r"current_error_context = econ->save_context;" + W + r"clear_error_state \(\);", 1, None),
+    ("catchKeepsCostBit", "src/frame.c", r"if \(get_error_state \(ES_MAX_EVAL_COST\)\)" + W + r"\{" + W + r"pop_context \(&econ\);" + W + r"(?:/\*.*?\*/)?" + W + r"set_error_state \(ES_MAX_EVAL_COST\);" + W + r"error", 1, None),
+    ("catchKeepsFullBit", "src/frame.c", r"if \(get_error_state \(ES_STACK_FULL\)\)" + W + r"\{" + W + r"pop_context \(&econ\);" + W + r"set_error_state \(ES_STACK_FULL\);" + W + r"error", 1, None),
+    ("catchPushesValue", "src/frame.c", r"restore_context \(&econ\);" + W + r"sp\+\+;" + W + r"\*sp = catch_value;", 1, None),
+    ("throwNeedsCatchFrame", "src/error_context.c", r"void throw_error \(\) \{" + W + r"if \(current_error_context && \(\(current_error_context->save_csp \+ 1\)->framekind & FRAME_MASK\) == FRAME_CATCH\)", 1, None),
+    ("handlerKeepsState", "src/error_context.c", r"int limit_state = get_error_state \(ES_STACK_FULL \| ES_MAX_EVAL_COST\);.{0,300}?mudlib_error_handler \(err, [01]\);.{0,120}?set_error_state \(limit_state\);", 2, None),
+    ("safeApplyOneTick", "src/apply.c", r"restore_context \(&econ\);.{0,400}?if \(get_error_state \(ES_MAX_EVAL_COST\)\)" + W + r"eval_cost = (\d+);", 1, "safeTickLeft"),
+    ("safeFunpOneTick", "lib/lpc/functional.c", r"restore_context \(&econ\);.{0,400}?if \(get_error_state \(ES_MAX_EVAL_COST\)\)" + W + r"eval_cost = (\d+);", 1, "safeTickLeftFunp"),
+    ("clampConfig", "lib/rc/rc.cpp", r"if \(CONFIG_INT \(__MAX_EVAL_COST__\) < (\d+)\)" + W + r"CONFIG_INT \(__MAX_EVAL_COST__\) = \1;", 1, "clampMin"),
+    ("clampEfun", "lib/efuns/unsorted.c", r"if \(CONFIG_INT \(__MAX_EVAL_COST__\) < (\d+)\)" + W + r"CONFIG_INT \(__MAX_EVAL_COST__\) = \1;", 1, "clampMinEfun"),
+    ("backendResets", "src/backend.c", r"eval_cost = CONFIG_INT \(__MAX_EVAL_COST__\);", 5, None),
+    ("callbackTick", "src/interpret.c", r"svalue_t\* call_efun_callback \(function_to_call_t \* ftc, int n\) \{.{0,700}?if \(!--eval_cost\)", 1, None),
+    ("allocArrayGuard", "lib/lpc/array.c", r"if \(n > \(size_t\)CONFIG_INT \(__MAX_ARRAY_SIZE__\)\)" + W + r"error \(\"Illegal array size", 2, None),
+    ("arraySizeCast", "lib/lpc/array.c", r"p->size = \(unsigned short\)n;", 2, None),
+    ("addArrayGuard", "lib/lpc/array.c", r"res = p->size \+ r->size;" + W + r"if \(res < 0 \|\| res > CONFIG_INT \(__MAX_ARRAY_SIZE__\)\)" + W + r"error", 1, None),
+    ("explodeClamp", "lib/lpc/array.c", r"if \(num > CONFIG_INT \(__MAX_ARRAY_SIZE__\)\)" + W + r"\{" + W + r"num = CONFIG_INT \(__MAX_ARRAY_SIZE__\);", 1, None),
+    ("implodeGuard", "lib/lpc/array.c", r"if \(size \+ \(num - 1\) \* del_len > \(size_t\)CONFIG_INT \(__MAX_STRING_LENGTH__\)\)" + W + r"error", 1, None),
+    ("bufferGuard", "lib/lpc/buffer.c", r"if \(size > \(size_t\)CONFIG_INT \(__MAX_BUFFER_SIZE__\)\)" + W + r"\{" + W + r"error", 1, None),
+    ("bufferSizeCast", "lib/lpc/buffer.c", r"buf->size = \(unsigned short\)size;", 1, None),
+    ("mapInsertGuard", "lib/lpc/mapping.c", r"if \(\+\+m->count > CONFIG_INT \(__MAX_MAPPING_SIZE__\)\)" + W + r"\{" + W + r"m->count--;" + W + r"mapping_too_large \(\);", 1, None),
+    ("mapCountGuards", "lib/lpc/mapping.c", r"if \(\+\+count > CONFIG_INT \(__MAX_MAPPING_SIZE__\)\)", 4, None),
+    ("mapAbsorbErrorPath", "lib/lpc/mapping.c", r"if \(count -= m1->count \+ 1\)" + W + r"\{[^}]*\}" + W + r"m1->count \+= count;" + W + r"mapping_too_large \(\);", 2, None),
+    ("mapAbsorbEnd", "lib/lpc/mapping.c", r"if \(count -= m1->count\)" + W + r"\{[^}]*\}" + W + r"m1->count \+= count;" + W + r"\}", 2, None),
+    ("joinGuardDef", "src/interpret.h", r"if \(\(len\) > \(size_t\)CONFIG_INT \(__MAX_STRING_LENGTH__\)\)" + W + r"\\" + W + r"error", 1, None),
+    ("joinGuardUses", "src/interpret.h", r"CHECK_STRING_JOIN_LENGTH\((?:ess|pss|ssj)_len\);", 3, None),
+    ("repeatGuard", "lib/efuns/string.c", r"if \(count <= 0\).{0,600}?if \(len == 0\)" + W + r"return;.{0,200}?if \(repeat > \(size_t\)CONFIG_INT \(__MAX_STRING_LENGTH__\) / len\)" + W + r"error", 1, None),
+    ("replaceSkipGuard", "lib/efuns/string.c", r"if \(\(size_t\)CONFIG_INT \(__MAX_STRING_LENGTH__\) - dlen <= skip\).{0,400}?dlen \+= skip;", 1, None),
+    ("sprintfFinalGuard", "lib/efuns/sprintf.c", r"if \(obuff.real_size > \(size_t\)CONFIG_INT \(__MAX_STRING_LENGTH__\)\)" + W + r"sprintf_error \(ERR_BUFF_OVERFLOW\);", 1, None),
+    ("rangeClamp", "lib/lpc/operator.c", r"if \(from < 0\)" + W + r"from = 0;" + W + r"if \(to >= v->size\)" + W + r"to = v->size - 1;" + W + r"if \(to < -1\)" + W + r"to = -1;" + W + r"if \(from > v->size\)" + W + r"from = v->size;", 1, None),
+]
+
+
+def gen_sites(repo):
+    """locate every site; returns (lean text, {constant: value}, report); raises TieBroken"""
+    import re
+    from nvlib import extract as X
+    consts, report, lines = {}, [], ["", "/-! guard sites located in the source by props/c04.py (SITES): name, file, matches -/"]
+    for name, rel, rx, want, cname in SITES:
+        text = open(os.path.join(repo, rel), errors="replace").read()
+        ms = list(re.finditer(rx, text, flags=re.S))
+        if len(ms) != want:
+            raise X.TieBroken("site:" + name, "guard site `%s` of %s: expected %d match(es) of /%s/, found %d - the line the model mirrors was changed" % (name, rel, want, rx, len(ms)))
+        report.append((name, rel, want))
+        lines.append("/-- %s: %d site(s) -/\ndef site_%s : Nat := %d" % (rel, want, name, want))
+        if cname:
+            vals = set(m.group(1) for m in ms)
+            if len(vals) != 1:
+                raise X.TieBroken("site:" + name, "guard site `%s`: the captured constants differ: %s" % (name, sorted(vals)))
+            consts[cname] = int(vals.pop())
+            lines.append("/-- constant of the guard `%s` in %s -/\ndef %s : Nat := %d" % (name, rel, cname, consts[cname]))
+    return "\n".join(lines) + "\n", consts, report
+
+
 BASE_CONF = "MaxCallDepth 200\nStackSize 2000\n"
 
 
@@ -253,12 +322,14 @@ def machine_case(cid, root, cost, depth, stack, hc=0, meta=None, idx=None, via="
 class C04(Prop):
     id = "C04"
     title = "Every evaluation is bounded by the configured limits"
-    lean_modules = ["NV.C04.Props", "NV.C04.Witness"]
+    lean_modules = ["NV.C04.Props", "NV.C04.Witness", "NV.C04.SpecTests"]
     theorems = ["NV.C04.limit_error_not_swallowed", "NV.C04.limit_error_reaches_next_frame",
                 "NV.C04.catch_reraises_limit_error", "NV.C04.eval_bounded", "NV.C04.eval_bounded_exact",
                 "NV.C04.eval_bounded_of_pos", "NV.C04.depth_bounded", "NV.C04.stack_checked_pushes_bounded",
                 "NV.C04.sizes_bounded", "NV.C04.replace_scan_in_bounds", "NV.C04.sprintf_bounded",
-                "NV.C04.array_size_exact"]
+                "NV.C04.array_size_exact", "NV.C04.sizes_bounded_derived", "NV.C04.map_count_exact",
+                "NV.C04.bridge_stackSlack", "NV.C04.bridge_depthTest", "NV.C04.bridge_clamp", "NV.C04.bridge_safeTick",
+                "NV.C04.bridge_esBits", "NV.C04.bridge_widths"]
     witness_theorems = ["NV.C04.eval_unbounded_at_zero_budget", "NV.C04.eval_bound_attained_through_safe_apply",
                         "NV.C04.sprintf_exceeds_small_limit", "NV.C04.array_size_wraps",
                         "NV.C04.buffer_size_wraps", "NV.C04.repeat_string_old_wraps"]
@@ -283,10 +354,10 @@ class C04(Prop):
     rule = ("cases = corpus + known-finding inputs + boundary list + seeded random cases, alternating (a) a random shape tree "
             "(work loops of 4 forms, spin loops of 4 forms, unbounded recursion direct/mutual/function-pointer/efun-callback with "
             "0..20 locals, recursion through catch, calls, catch frames, map/filter callbacks, safe applies via sprintf(%O), "
-            "error, throw) under MaxEvaluationCost 2000..8000, MaxCallDepth 16..60, StackSize 150..1000, master handler with/without "
+            "error, throw, sort_array callbacks to a missing function) under MaxEvaluationCost 2000..8000 (1 in 12 a value the driver clamps, set through init_config or set_eval_limit), MaxCallDepth 16..60, StackSize 150..1000, master handler with/without "
             "catch, and (b) 3..8 constructor calls with arguments around the limit, 0, negative, 2^31, 2^32+k, 2^62, INT64 "
             "extremes under MaxArraySize/MaxBufferSize/MaxMappingSize/MaxStringLength 10..1000 (1 in 8 with limits around 65536); "
-            "a case is non-trivial when its trace has >= 2 lines; distinct = distinct canonical implementation trace")
+            "and (c) 1 in 8 a sequence of inserts and in-place `m += m2` on one mapping around MaxMappingSize, each inside catch; the quantifier of the property is covered as: loops of 4 forms, direct / mutual / function-pointer / callback / catch recursion, doubling concatenation (join_self), every limit named; the histogram in the evidence lists every branch of the model's machine and every constructor with its ok/err counts (all branches are taken in the quick tier); a case is non-trivial when its trace has >= 2 lines; distinct = distinct canonical implementation trace")
     not_covered = ["mapping * mapping (compose_mapping: keeps a subset of the left operand's keys) and the efuns marked NOT ANALYSED on the exclusion list of props/c04.py (save_variable, restore_variable, regexp, reg_assoc)",
                    "work done inside one efun call that makes no callback (e.g. hashing, copying) is bounded by the size limits, not by the evaluation cost",
                    "instructions the master's error handler executes after a limit error (it runs on a refreshed budget; bounded by an allowance in the oracle, not modelled)",
@@ -301,6 +372,11 @@ class C04(Prop):
         self.conf = E.make_mudlib(ctx.rundir, master="/c04/master.c", extra_conf=BASE_CONF)
         self.idx = dict(getattr(ctx, "gen_vals", {}) or {})
         self.raw = {}
+
+    def gen_extra(self, ctx, bdir):
+        text, consts, report = gen_sites(E.REPO)
+        self.site_report = report
+        return text
 
     def extra_checks(self, ctx, tier, rng):
         inv = efun_inventory(E.REPO)
@@ -350,6 +426,45 @@ class C04(Prop):
         lines += ["sz " + c for c in cmds]
         return E.Case(cid, lines, {"origin": origin, "kind": "sizes"})
 
+    def mapseq_case(self, cid, limit, ops, origin="boundary"):
+        ix = self.idx_or_default()
+        return E.Case(cid, ["cfgint %d %d" % (ix["cfgMaxMapping"], limit), "load sizes /c04/sizes", "ev sizes mapseq " + ",".join(ops)],
+                      {"origin": origin, "kind": "mapseq"})
+
+    def gen_mapseq(self, rng, cid):
+        """inserts and in-place `m += m2` on one mapping, each inside catch.  `present` = keys certainly in the mapping;
+        a failed `+=` is applied partially (which keys depends on the hash order), so its range is never used again"""
+        limit = rng.choice([8, 20, 50, 100])
+        present, ops, nxt = [], [], 0
+        count = 0                               # model of the size, to steer towards the limit
+        for _ in range(rng.range(3, 10)):
+            k = rng.weighted([("inew", 4), ("iold", 2), ("abs", 5)])
+            if k == "iold" and present:
+                ops.append("i%do" % rng.choice(present))
+            elif k == "abs":
+                n = rng.choice([0, 1, 3, limit // 2, limit - count, limit - count + 1, limit - count + 3, limit])
+                n = min(max(0, n), limit)       # the operand m2 is itself a mapping within the limit
+                overlap = rng.choice([0, 0, 1, 3]) if present else 0
+                overlap = min(overlap, n, len(present))
+                if overlap and sorted(present)[-overlap:] == list(range(nxt - overlap, nxt)):
+                    frm, new = nxt - overlap, n - overlap      # the range starts inside the keys inserted last
+                else:
+                    frm, new = nxt, n
+                ops.append("a%d:%d:%d" % (frm, n, new))
+                if count + new <= limit:
+                    present += list(range(max(frm, nxt), frm + n))
+                    count += new
+                else:
+                    count = limit                           # partially applied: exactly MAX keys
+                nxt = frm + n + 1000
+            else:
+                ops.append("i%dn" % nxt)
+                if count + 1 <= limit:
+                    present.append(nxt)
+                    count += 1
+                nxt += 1
+        return self.mapseq_case(cid, limit, ops, "generated")
+
     def boundary(self):
         N = Node
         B = []
@@ -396,6 +511,14 @@ class C04(Prop):
         B.append(self.mk("b-nocode-over", N("N", 400), cost=200, depth=20, stack=300))
         B.append(self.mk("b-nocode-under", Q(N("N", 10), W(5)), cost=2000))
         B.append(self.mk("b-nocode-catch", C(C(N("N", 95, form=1))), cost=80))
+        # a safe apply made at (and just below) full call depth: save_context refuses silently / the applied function cannot be entered
+        def chain(n, x):
+            for _ in range(n):
+                x = F(0, x)
+            return x
+        for dlt in (1, 2, 3, 4):
+            B.append(self.mk("b-safe-at-depth-minus%d" % dlt, Q(chain(12 - dlt - 2, A(K)), W(5)), depth=12))
+            B.append(self.mk("b-catch-at-depth-minus%d" % dlt, Q(C(chain(12 - dlt - 3, C(W(3)))), W(5)), depth=12))
         # ordinary errors are still catchable
         B.append(self.mk("b-c-err", Q(C(E_), W(20))))
         B.append(self.mk("b-c-throw", Q(C(T), C(C(E_)))))
@@ -407,6 +530,11 @@ class C04(Prop):
         B.append(self.mk("b-rec-locals", R(20), depth=150, stack=200))
         B.append(self.mk("b-c2-rec-locals", C(C(R(12, 1))), depth=150, stack=150))
         B.append(self.mk("b-nest", F(3, F(0, F(5, W(10)))), depth=12))
+        # mapping count bookkeeping across a partially applied `m += m2` (error path of add_to_mapping)
+        B.append(self.mapseq_case("b-map-absorb-over", 20, ["i0n", "a100:15:15", "a200:10:10", "i300n", "i301n", "a400:5:5", "i0o"]))
+        B.append(self.mapseq_case("b-map-absorb-exact", 20, ["a100:20:20", "i300n", "a400:1:1", "a100:20:0"]))
+        B.append(self.mapseq_case("b-map-absorb-empty", 8, ["a100:0:0", "a200:8:8", "i1n", "a300:8:8", "a400:1:1"]))
+        B.append(self.mapseq_case("b-map-absorb-overlap", 20, ["a100:12:12", "a109:12:9", "i500n"]))
         # sizes
         B.append(self.sizes_case("b-sz-array", {"array": 100, "string": 1000},
                                  ["allocate 100", "allocate 101", "allocate 0", "allocate -1", "allocate 4294967296",
@@ -431,7 +559,7 @@ class C04(Prop):
         B.append(self.sizes_case("b-sz-derived", {"array": 50, "mapping": 80, "string": 200},
                                  ["copy_array 50", "copy_mapping 80", "sort_array 50", "map_array 50", "lower_case 200", "filter_array 50 20",
                                   "filter_array 50 0", "unique_array 50 7", "unique_array 50 0", "array_sub 50 20", "array_and 50 20",
-                                  "keys 50", "keys 51", "values 80", "allocate_mapping 1000000", "allocate_mapping -1"]))
+                                  "keys 50", "keys 51", "values 80", "filter_mapping 80 30", "filter_mapping 80 0", "map_mapping 80", "map_mapping 81", "allocate_mapping 1000000", "allocate_mapping -1"]))
         B.append(self.sizes_case("b-sz-wide", {"array": 70000, "buffer": 200000, "string": 100000},
                                  ["allocate 65535", "allocate_buffer 65535", "join 60000 30000", "sprintf 30000 30000", "sprintf 60000 40000"]))
         B.append(self.sizes_case("b-sz-sprintf", {"string": 200}, ["sprintf 100 100", "sprintf 100 101", "sprintf 200 100", "sprintf 1 1"]))
@@ -516,10 +644,13 @@ class C04(Prop):
                               ("replace", 3), ("sprintf", 1), ("derived", 6)])
             if k == "derived":
                 d = rng.choice(["copy_array", "copy_mapping", "sort_array", "map_array", "lower_case", "filter_array",
-                                "unique_array", "array_sub", "array_and", "keys", "values", "allocate_mapping"])
+                                "unique_array", "array_sub", "array_and", "keys", "values", "allocate_mapping", "filter_mapping", "map_mapping"])
                 if d in ("copy_array", "sort_array", "map_array"):
                     cmds.append("%s %d" % (d, near(la, False)))
-                elif d in ("copy_mapping", "keys", "values"):
+                elif d == "filter_mapping":
+                    n_ = rng.choice([0, 1, lm // 2, lm, lm + 1])
+                    cmds.append("filter_mapping %d %d" % (n_, rng.choice([0, 1, n_ // 2, n_, n_ + 3])))
+                elif d in ("copy_mapping", "keys", "values", "map_mapping"):
                     cmds.append("%s %d" % (d, rng.choice([0, 1, lm // 2, lm, lm + 1, min(lm, la), min(lm, la + 1)])))
                 elif d == "lower_case":
                     cmds.append("lower_case %d" % near(ls, False))
@@ -601,7 +732,9 @@ class C04(Prop):
     def generate(self, rng, n, tier):
         out = []
         for i in range(n):
-            if i % 2 == 0:
+            if i % 8 == 7:
+                out.append(self.gen_mapseq(rng, "g%d" % i))
+            elif i % 2 == 0:
                 out.append(self.gen_machine(rng, "g%d" % i))
             else:
                 out.append(self.gen_sizes(rng, "g%d" % i))
@@ -610,6 +743,37 @@ class C04(Prop):
     def histogram(self, cases, impl):
         h = {"machine_cases": 0, "sizes_cases": 0, "sz_err": 0, "sz_ok": 0, "ev_ret": 0, "ev_err_cost": 0, "ev_err_stack_or_depth": 0,
              "ev_err_plain": 0, "after_catch": 0, "nested_catch_over_limit": 0}
+        # branches of the model's machine taken by the machine cases, and outcome per constructor
+        try:
+            cov = E.nvdrive(self.id, "cover", E.cases_text([c for c in cases if c.meta.get("kind") == "machine"]))
+            br = {}
+            for v in cov.values():
+                for l in v:
+                    br[l[3:]] = br.get(l[3:], 0) + 1
+            h["machine_branches"] = dict(sorted(br.items()))
+        except Exception as e:  # noqa
+            h["machine_branches"] = "cover mode failed: %s" % e
+        ctor = {}
+        for c in cases:
+            if c.meta.get("kind") != "sizes":
+                continue
+            names = [l.split()[1] for l in c.lines if l.startswith("sz ")]
+            outs = [l for l in impl.get(c.id, []) if l.startswith("sz ")]
+            for nme, o in zip(names, outs):
+                d = ctor.setdefault(nme, {"ok": 0, "err": 0, "zero": 0})
+                d["err" if o == "sz err" else "zero" if o == "sz ok -1" else "ok"] += 1
+        h["constructor_outcomes"] = dict(sorted(ctor.items()))
+        mp = {"absorb_ok": 0, "absorb_err": 0, "insert_ok": 0, "insert_err": 0}
+        for c in cases:
+            if c.meta.get("kind") != "mapseq":
+                continue
+            ops = c.lines[-1].split()[-1].split(",")
+            out = [l for l in impl.get(c.id, []) if l.startswith("r ret")]
+            if out and '"' in out[0]:
+                flags = out[0].split('"')[1].split(":")[0]
+                for o, f in zip(ops, flags):
+                    mp[("absorb" if o[0] == "a" else "insert") + ("_err" if f == "e" else "_ok")] += 1
+        h["mapseq_ops"] = mp
         for c in cases:
             k = c.meta.get("kind")
             if k == "machine":
